@@ -122,3 +122,15 @@ def mc_prenorm(w, d, beta, minw, n, k, i):
     nw = mc_unnormalised(w, d, beta, k)
     tot = ('sum', i, ZERO, n, mc_unnormalised(w, d, beta, i))
     return ite(T.cmp('==', nw, ZERO), ZERO, fn('fmax', div(nw, tot), minw))
+
+
+# ---- VEGAS grid refinement (vegas_pdf.dox; Lepage 1978; doc of vegas_refine_pdf) ----------------
+def vegas_importance(t, norm, alpha):
+    # damped importance of a bin with smoothed datum t:  ((r - 1)/log r)^alpha,  r = t / norm
+    r_ = div(t, norm)
+    return fn('pow', div(sub(r_, ONE), fn('log', r_)), alpha)
+
+
+def vegas_new_left(cur, prev, overshoot, imp_prev):
+    # the new boundary lies inside old bin (prev, cur): cur - (cur - prev) * overshoot / importance
+    return sub(cur, div(mul(sub(cur, prev), overshoot), imp_prev))
